@@ -82,6 +82,9 @@ def main():
         chk.units = list(prog.units)
         check_anchors(a.prop, prog)
         mod.run(chk, prog)
+        # interface rule shared by all checks, over the functions defined in the files the property is anchored in
+        from .rules import common
+        common.decl_def_params(chk, prog, "RI", common.anchor_files(a.prop))
         mr = getattr(prog, "main_roles", None)
         if mr and (mr.get("renamed") or mr.get("spliced") or mr.get("named_steps") or mr.get("unresolved")):
             chk.notes.append("main() was read through its role model: renamed %s; helpers spliced %s; named steps expanded %s; roles not resolved %s"
